@@ -280,12 +280,85 @@ def _same_function(pe, q1, q2):
 
 
 SKIP_ROUNDTRIP = {
-    # constructed from other layers / need a built inner batch-norm layer:
-    # their configs are covered by R2 / R3 and C15
-    "QConv2DBatchnorm": "inner BatchNormalization object",
-    "QDepthwiseConv2DBatchnorm": "inner BatchNormalization object",
+    # constructed from another layer object
     "QBidirectional": "wraps another layer object",
 }
+
+
+def layer_pe(repo, ci, name):
+  """An interpreter in which a layer class of the library can be built by
+  its OWN constructor: the Keras parent constructor / get_config and the
+  Keras (de)serialisers are stand-ins (see `base_init`), an inner
+  `layers.BatchNormalization(...)` is an object that remembers and reports
+  the options it was given."""
+  garci = lambda pe_, a, k: (a[1], a[2])
+  pe = PE(repo, module_overrides={
+      m: {"get_auto_range_constraint_initializer": garci}
+      for m in (ci.module.name, "qkeras.qlayers")})
+  pe.opaque_ext = True
+
+  def base_init(pe_, a, k, rank=1 if "1D" in name else 2):
+    me = pe_.external_super_self
+    k = dict(k)
+    k.setdefault("name", name.lower())     # Keras names every layer
+    # Keras normalises integer geometry arguments to one entry per
+    # spatial dimension (conv_utils.normalize_tuple) and serialises the
+    # normalised form; pooling strides default to the pool size
+    for kk in ("pool_size", "kernel_size", "strides", "dilation_rate"):
+      if isinstance(k.get(kk), int) and not isinstance(k[kk], bool):
+        k[kk] = (k[kk],) * rank
+    if "pool_size" in k and k.get("strides") is None:
+      k["strides"] = k["pool_size"]
+    for kk, vv in k.items():
+      if kk in ("pool_size", "kernel_size", "strides", "dilation_rate"):
+        me.attrs[kk] = vv
+      else:
+        me.attrs.setdefault(kk, vv)
+    # the Keras parent serialises what it was constructed with
+    me.attrs["__base_config__"] = dict(k)
+    if a and isinstance(a[0], Obj):
+      me.attrs.setdefault("cell", a[0])   # keras RNN(cell, ...)
+      me.attrs["__base_config__"]["cell"] = Mock("serialized",
+                                                 {"obj": a[0]})
+    # defaults the Keras parents give to options they were not handed
+    for kk, vv in (("dilation_rate", (1, 1)), ("activation", None),
+                   ("data_format", "channels_last"), ("use_bias", True),
+                   ("padding", "valid"), ("strides", (1, 1)),
+                   ("groups", 1), ("output_padding", None),
+                   ("filters", None)):
+      me.attrs.setdefault(kk, vv)
+
+  def base_get_config(pe_, a, k):
+    me = pe_.external_super_self
+    return dict(me.attrs.get("__base_config__", {}))
+
+  def ser(pe_, a, k):
+    v = a[0]
+    if isinstance(v, (Obj, Mock)):
+      return Mock("serialized", {"obj": v})
+    return v
+
+  def deser(pe_, a, k):
+    v = a[0]
+    if isinstance(v, Mock) and v.name == "serialized":
+      return v.attrs["obj"]
+    return v
+  eo = {"<external-super>.__init__": base_init,
+        "super.get_config": base_get_config}
+  eo["*.serialize"] = ser
+  eo["*.deserialize"] = deser
+  eo["*.serialize_keras_object"] = ser
+  eo["*.deserialize_keras_object"] = deser
+  pe.ext_overrides = eo
+  def inner_bn(pe_, a, k):
+    opts = dict(k)
+    m = Mock("BatchNormalization", dict(opts))
+    m.attrs["__options__"] = opts
+    m.attrs["get_config"] = lambda pe__, a_, k_: dict(
+        opts, name="batch_normalization", dtype="float32")
+    return m
+  eo["*.BatchNormalization"] = inner_bn
+  return pe
 
 
 def rule_layer_roundtrip(rep, repo, table):
@@ -303,7 +376,7 @@ def rule_layer_roundtrip(rep, repo, table):
       # inverse_quantizer excludes the gamma / variance quantizers (the
       # constructor asserts it); the separate quantizers are exercised
       qparams = [p for p in qparams if p != "inverse_quantizer"]
-    if not qparams and name not in ("QActivation",):
+    if not qparams and name not in ("QActivation", "QAdaptiveActivation"):
       continue
     if name in SKIP_ROUNDTRIP:
       skipped[name] = SKIP_ROUNDTRIP[name]
@@ -312,63 +385,7 @@ def rule_layer_roundtrip(rep, repo, table):
     rep.unit(unit)
     gowner, gfn = ci.find_method("get_config")
     loc = gowner.module.loc(gfn) if gfn is not None else ci.loc()
-    garci = lambda pe_, a, k: (a[1], a[2])
-    pe = PE(repo, module_overrides={
-        m: {"get_auto_range_constraint_initializer": garci}
-        for m in (ci.module.name, "qkeras.qlayers")})
-    pe.opaque_ext = True
-
-    def base_init(pe_, a, k, rank=1 if "1D" in name else 2):
-      me = pe_.external_super_self
-      k = dict(k)
-      # Keras normalises integer geometry arguments to one entry per
-      # spatial dimension (conv_utils.normalize_tuple) and serialises the
-      # normalised form; pooling strides default to the pool size
-      for kk in ("pool_size", "kernel_size", "strides", "dilation_rate"):
-        if isinstance(k.get(kk), int) and not isinstance(k[kk], bool):
-          k[kk] = (k[kk],) * rank
-      if "pool_size" in k and k.get("strides") is None:
-        k["strides"] = k["pool_size"]
-      for kk, vv in k.items():
-        if kk in ("pool_size", "kernel_size", "strides", "dilation_rate"):
-          me.attrs[kk] = vv
-        else:
-          me.attrs.setdefault(kk, vv)
-      # the Keras parent serialises what it was constructed with
-      me.attrs["__base_config__"] = dict(k)
-      if a and isinstance(a[0], Obj):
-        me.attrs.setdefault("cell", a[0])   # keras RNN(cell, ...)
-        me.attrs["__base_config__"]["cell"] = Mock("serialized",
-                                                   {"obj": a[0]})
-      # defaults the Keras parents give to options they were not handed
-      for kk, vv in (("dilation_rate", (1, 1)), ("activation", None),
-                     ("data_format", "channels_last"), ("use_bias", True),
-                     ("padding", "valid"), ("strides", (1, 1)),
-                     ("groups", 1), ("output_padding", None)):
-        me.attrs.setdefault(kk, vv)
-
-    def base_get_config(pe_, a, k):
-      me = pe_.external_super_self
-      return dict(me.attrs.get("__base_config__", {}))
-
-    def ser(pe_, a, k):
-      v = a[0]
-      if isinstance(v, (Obj, Mock)):
-        return Mock("serialized", {"obj": v})
-      return v
-
-    def deser(pe_, a, k):
-      v = a[0]
-      if isinstance(v, Mock) and v.name == "serialized":
-        return v.attrs["obj"]
-      return v
-    eo = {"<external-super>.__init__": base_init,
-          "super.get_config": base_get_config}
-    eo["*.serialize"] = ser
-    eo["*.deserialize"] = deser
-    eo["*.serialize_keras_object"] = ser
-    eo["*.deserialize_keras_object"] = deser
-    pe.ext_overrides = eo
+    pe = layer_pe(repo, ci, name)
     kw = {}
     for i, p in enumerate(qparams):
       kw[p] = pe.call(pe.lookup_global("quantized_bits", qmod), [], dict(
@@ -383,6 +400,18 @@ def rule_layer_roundtrip(rep, repo, table):
                    ("pool_size", 3)):
       if p_ in params:
         kw[p_] = v_
+    if name == "QAdaptiveActivation":
+      # the quantizer is named, not given; every option non-default
+      kw = dict(activation="quantized_relu", total_bits=6, current_step=3,
+                symmetric=False, quantization_delay=5, ema_freeze_delay=10,
+                ema_decay=F(9, 10), per_channel=True, po2_rounding=True,
+                relu_neg_slope=F(1, 4), relu_upper_bound=F(3, 2))
+    # the composite (batch-norm folding) layers: non-default options of the
+    # inner batch normalisation and of the folding itself
+    if name.endswith("Batchnorm"):
+      kw.update(momentum=F(9, 10), epsilon=F(1, 100), scale=False,
+                ema_freeze_delay=5, folding_mode="batch_stats_folding",
+                strides=2, padding="same", dilation_rate=(2, 2))
     # array-valued options: a kernel mask for every kernel shape class
     # (both sides > 1, a unit-length side, 1x1)
     if "mask" in params:
@@ -455,7 +484,7 @@ def rule_layer_roundtrip(rep, repo, table):
       continue
     n += 1
     attrs = [p + "_internal" for p in qparams]
-    if name == "QActivation":
+    if name in ("QActivation", "QAdaptiveActivation"):
       attrs = ["quantizer"]
     elif "activation" in params:
       attrs.append("activation")
@@ -476,6 +505,15 @@ def rule_layer_roundtrip(rep, repo, table):
               "%s rebuilt from its own get_config() differs in %s" % (
                   name, ["%s: %r -> %r" % (a_, o.attrs[a_], o2.attrs[a_])
                          for a_ in diff]), loc=loc)
+    if name.endswith("Batchnorm"):
+      b1, b2 = o.attrs.get("batchnorm"), o2.attrs.get("batchnorm")
+      o1_, o2_ = (getattr(b, "attrs", {}).get("__options__") for b in (b1,
+                                                                       b2))
+      rep.check(o1_ is not None and o1_ == o2_, "R5", unit,
+                "inner-batchnorm-changed-by-round-trip",
+                "%s rebuilt from its own get_config() builds its inner "
+                "batch normalisation with %r, the original with %r" % (
+                    name, o2_, o1_), loc=loc)
     for a in attrs:
       q1, q2 = o.attrs.get(a), o2.attrs.get(a)
       if a == "activation" and not isinstance(q1, Obj):
@@ -597,6 +635,157 @@ def rule_routes(rep, repo):
               sorted(user), loc=um.loc(fn))
 
 
+def rule_wrappers(rep, repo):
+  """R6: the constraint and initializer wrappers that end up inside layer
+  configs.  `get_auto_range_constraint_initializer`, `get_constraint`,
+  `get_initializer`, `Clip` and `QInitializer` are interpreted (Keras'
+  `constraints.get` / `initializers.get` pass objects through and build a
+  stand-in from a name): the default constraint of a quantized weight clips
+  to +-max(1, quantizer.max()); a `Clip` / `QInitializer` rebuilt from the
+  dictionary Keras serialises it to ({"class_name", "config": get_config()})
+  computes / holds the same; which initializers are wrapped."""
+  ql = repo.module("qkeras.qlayers")
+  qmod = repo.module("qkeras.quantizers")
+  for need in ("Clip", "QInitializer"):
+    if need not in ql.classes:
+      raise AnalysisError("anchor-missing class qlayers.%s" % need)
+  for need in ("get_constraint", "get_initializer",
+               "get_auto_range_constraint_initializer"):
+    if need not in ql.functions:
+      raise AnalysisError("anchor-missing function qlayers.%s" % need)
+  unit = "%s::Clip" % ql.relpath
+  rep.unit(unit)
+  fw = Fwd()
+
+  def new_pe():
+    pe = PE(repo)
+    pe.opaque_ext = True
+
+    def kget(pe_, a, k):
+      v = a[0]
+      if isinstance(v, str):
+        cname = {"he_normal": "HeNormal", "ones": "Ones", "zeros": "Zeros",
+                 "glorot_uniform": "GlorotUniform"}.get(v, v)
+        return Mock(cname, {"__class__": Mock("class", {"__name__": cname}),
+                            "scale": F(2), "name": v,
+                            "__call__": lambda pe__, a_, k_: Tensor(
+                                ("sym", "initial_" + v), ())})
+      return v
+    pe.ext_overrides = {"tf.keras.constraints.get": kget,
+                        "tf.keras.initializers.get": kget}
+    return pe
+  configs = [("quantized_bits", dict(bits=4, integer=0, alpha=1)),
+             ("quantized_bits", dict(bits=6, integer=2, alpha=1)),
+             ("quantized_po2", dict(bits=4, max_value=4)),
+             ("binary", dict(alpha=1)), ("ternary", dict(alpha=1)),
+             ("quantized_bits", dict(bits=4, integer=0, alpha="auto"))]
+  n = 0
+  for qname, qkw in configs:
+    cfg = "%s(%s)" % (qname, qref.show_kwargs(qkw))
+    pe = new_pe()
+    try:
+      q = pe.call(pe.lookup_global(qname, qmod), [], dict(qkw))
+      qmax = pe.call(pe.getattr(q, "max"), [], {})
+      c, ini = pe.call(pe.lookup_global(
+          "get_auto_range_constraint_initializer", ql), [q, None,
+                                                         "he_normal"], {})
+      w = pe.x_input()
+      out = pe.call(c, [w], {})
+      ccfg = pe.call(pe.getattr(c, "get_config"), [], {})
+      c2 = pe.call(pe.lookup_global("get_constraint", ql), [
+          {"class_name": "Clip", "config": dict(ccfg)}, q], {})
+      out2 = pe.call(c2, [w], {})
+    except PyRaise as e:
+      rep.fail("R6", unit, "wrapper-raises", "%s: raises %s" % (cfg, e),
+               loc=ql.classes["Clip"].loc(), instance=cfg)
+      continue
+    n += 1
+    m = fw(pe.as_term(qmax)).const_value()
+    m = max(F(1), F(m)) if m is not None else None
+    want = None if m is None else fw(("app", "clip", (), (
+        w.term, ("c", -m), ("c", m))))
+    rep.check(want is not None and isinstance(out, Tensor) and
+              fw(out.term) == want, "R6", unit, "default-constraint",
+              "%s: the default constraint of a weight computes %s, expected "
+              "a clip to +-max(1, quantizer.max()) = +-%s" % (
+                  cfg, show_nf(fw(out.term)) if isinstance(out, Tensor)
+                  else out, m), loc=ql.classes["Clip"].loc(), instance=cfg)
+    rep.check(isinstance(out2, Tensor) and isinstance(out, Tensor) and
+              fw(out2.term) == fw(out.term), "R6", unit,
+              "clip-changed-by-config-round-trip",
+              "%s: Clip rebuilt from %r computes %s, the original %s" % (
+                  cfg, ccfg, show_nf(fw(out2.term)) if isinstance(
+                      out2, Tensor) else out2, show_nf(fw(out.term))
+                  if isinstance(out, Tensor) else out),
+              loc=ql.classes["Clip"].loc(), instance=cfg)
+    # initializer wrapping: fixed-scale quantizers get a QInitializer around
+    # the Keras initializer, data-dependent scales do not
+    wrapped = isinstance(ini, Obj) and ini.cls.name == "QInitializer"
+    want_wrapped = not isinstance(qkw.get("alpha"), str)
+    iunit = "%s::get_auto_range_constraint_initializer" % ql.relpath
+    rep.check(wrapped == want_wrapped, "R6", iunit, "initializer-wrapping",
+              "%s: the he_normal initializer is %swrapped in QInitializer" %
+              (cfg, "" if wrapped else "not "), loc=ql.loc(ql.functions[
+                  "get_auto_range_constraint_initializer"]), instance=cfg)
+    if wrapped:
+      try:
+        icfg = pe.call(pe.getattr(ini, "get_config"), [], {})
+        ini2 = pe.call(pe.lookup_global("get_initializer", ql), [
+            {"class_name": "QInitializer", "config": dict(icfg)}], {})
+      except PyRaise as e:
+        rep.fail("R6", "%s::QInitializer" % ql.relpath,
+                 "initializer-round-trip-raises", "%s: raises %s" % (cfg, e),
+                 loc=ql.classes["QInitializer"].loc(), instance=cfg)
+        continue
+      ok = isinstance(ini2, Obj) and ini2.cls.name == "QInitializer" and \
+          ini2.attrs.get("initializer") is ini.attrs.get("initializer") and \
+          ini2.attrs.get("use_scale") == ini.attrs.get("use_scale") and \
+          ini2.attrs.get("is_po2") == ini.attrs.get("is_po2") and \
+          _same_function(pe, ini2.attrs.get("quantizer"),
+                         ini.attrs.get("quantizer")) and \
+          ini.attrs.get("quantizer") is q and \
+          ini.attrs.get("use_scale") is True and \
+          ini.attrs.get("is_po2") == ("po2" in qname)
+      rep.check(ok, "R6", "%s::QInitializer" % ql.relpath,
+                "initializer-changed-by-config-round-trip",
+                "%s: QInitializer holds %r; rebuilt from its config %r" % (
+                    cfg, {k: ini.attrs.get(k) for k in (
+                        "initializer", "use_scale", "quantizer", "is_po2")},
+                    {k: ini2.attrs.get(k) for k in (
+                        "initializer", "use_scale", "quantizer", "is_po2")}
+                    if isinstance(ini2, Obj) else ini2),
+                loc=ql.classes["QInitializer"].loc(), instance=cfg)
+  # pass-through cases
+  pe = new_pe()
+  garci = pe.lookup_global("get_auto_range_constraint_initializer", ql)
+  q = pe.call(pe.lookup_global("quantized_bits", qmod), [], dict(
+      bits=4, integer=0, alpha=1))
+  iunit = "%s::get_auto_range_constraint_initializer" % ql.relpath
+  try:
+    c0, i0 = pe.call(garci, [None, "CONSTRAINT", "INITIALIZER"], {})
+    rep.check(c0 == "CONSTRAINT" and i0 == "INITIALIZER", "R6", iunit,
+              "no-quantizer-pass-through",
+              "without a quantizer the constraint / initializer become %r / "
+              "%r" % (c0, i0))
+    for iname in ("ones", "zeros"):
+      _, i1 = pe.call(garci, [q, None, iname], {})
+      rep.check(isinstance(i1, Mock), "R6", iunit,
+                "constant-initializer-wrapped:" + iname,
+                "the %s initializer becomes %r" % (iname, i1))
+    user = Mock("user constraint", {"__call__": lambda pe_, a, k: a[0]})
+    c1, _ = pe.call(garci, [q, user, "ones"], {})
+    rep.check(c1 is user, "R6", iunit, "user-constraint-replaced",
+              "a constraint given by the user becomes %r" % (c1,))
+  except PyRaise as e:
+    rep.fail("R6", iunit, "wrapper-raises", "raises %s" % e)
+  rep.extra["constraint_initializer_wrappers_checked"] = n
+
+
+def show_nf(nf):
+  from ..nf import show
+  return show(nf, 160)
+
+
 def run(rep, repo, tier):
   rep.trusted.append("Keras model_from_json / load_model resolve class names "
                      "through custom_objects and call cls.from_config")
@@ -607,6 +796,8 @@ def run(rep, repo, tier):
   rule_routes(rep, repo)
   rule_layer_roundtrip(rep, repo, table)
   rep.require_instances("R5", 25)
+  rule_wrappers(rep, repo)
+  rep.require_instances("R6", 20)
   rep.sample({"custom_object_table": sorted(table)})
   rep.require_instances("R1", 50)
   rep.require_instances("R2", 150)
